@@ -42,7 +42,6 @@ def truncToInt (q : Rat) : Option Int :=
 
 inductive LRes where
   | val (v : GoVal)
-  | panic (why : String)
   | unmodelled (why : String)
   deriving Repr
 
@@ -112,7 +111,7 @@ def mapSliceFind : List (GoVal × GoVal) → GoVal → LRes
     match ifaceEq e k with
     | some true => .val v
     | some false => mapSliceFind r e
-    | none => .panic "comparing uncomparable type in MapSlice lookup"
+    | none => mapSliceFind r e        -- `safeEqual`: operands of an uncomparable type are unequal
 
 /-- `IndexValue` -/
 def indexValue (recv idx : GoVal) : LRes :=
